@@ -267,16 +267,26 @@ func parent(p *props.Prop, cfg mon.Config) int {
 		n = 16
 	}
 	cfg.NShards = n
-	runs := make([]shardRun, n)
-	var wg sync.WaitGroup
-	for i := 0; i < n; i++ {
-		wg.Add(1)
-		go func(i int) {
-			defer wg.Done()
-			runs[i] = runShard(p, cfg, bin, work, i, p.ID == "C09")
-		}(i)
+	pass := func(bin string, cfg mon.Config, dir string) []shardRun {
+		os.MkdirAll(dir, 0755)
+		runs := make([]shardRun, n)
+		var wg sync.WaitGroup
+		for i := 0; i < n; i++ {
+			wg.Add(1)
+			go func(i int) {
+				defer wg.Done()
+				runs[i] = runShard(p, cfg, bin, dir, i, p.ID == "C09")
+			}(i)
+		}
+		wg.Wait()
+		return runs
 	}
-	wg.Wait()
+	runs := pass(bin, cfg, work)
+	if p.RaceSecondPass && *fRaceBin != "" {
+		rc := cfg
+		rc.Race = true
+		runs = append(runs, pass(*fRaceBin, rc, filepath.Join(work, "race"))...)
+	}
 	var rs []*mon.Result
 	var incon []string
 	var deaths []mon.Violation
@@ -289,8 +299,10 @@ func parent(p *props.Prop, cfg mon.Config) int {
 	merged.Violations = append(merged.Violations, deaths...)
 
 	extra := map[string]any{}
-	if p.Race {
+	if p.Race || p.RaceSecondPass {
 		nr, firsts := countRaceReports(work)
+		nr2, firsts2 := countRaceReports(filepath.Join(work, "race"))
+		nr, firsts = nr+nr2, append(firsts, firsts2...)
 		extra["race_reports"] = nr
 		merged.Counters["race_reports"] = int64(nr)
 		if nr > 0 {
